@@ -3,6 +3,7 @@ import ALV.Model.C12
 import ALV.Spec.C12
 import ALV.Model.C12Call
 import ALV.Spec.C12Call
+import ALV.Spec.C04
 namespace ALV.Driver.C12
 open ALV ALV.J ALV.C12
 
@@ -174,6 +175,8 @@ def handle (entry : String) (j : Json) : Except String Json := do
     pure <| Json.mkObj [
       ("model", arr respToJson (elementwise (respOfFilter b a) ws)),
       ("spec", arr respToJson (elementwise (respSpec b a) ws)),
+      -- the dict form of the specification on the dict {k: c_k} of the same lists (Props.C12.terms_spec_eq_dense_spec)
+      ("spec_terms", arr respToJson (elementwise (respSpecTerms (denseTerms 0 b) (denseTerms 0 a)) ws)),
       ("den", arr gToJson (ws.map (evalDirect a))),
       -- does the constructor raise (independently of any frequency)?
       ("ctor_model", Json.bool (mkFilter b a).isNone),
@@ -235,12 +238,15 @@ def handle (entry : String) (j : Json) : Except String Json := do
     let xs ← getList getG (← field j "xs")
     let m := firRun b xs
     let s := firSpec b xs
+    -- the same run taken from the C04 slice (Props.C12.c04_run_is_fir_run)
+    let c4 := C04.fspec b [] 1 0 [] [] xs
     -- impulse response / DFT link: dft of the model output at the points ws (unnormalised)
     let ws ← getList getG (fieldD j "ws" (Json.arr []))
     let dm := ws.map fun w => dftSum (fun n => pw w n) m
     let hs := ws.map fun w => respSpec b [1] w
     pure <| Json.mkObj [
-      ("model", arr gToJson m), ("spec", arr gToJson s),
+      ("model", arr gToJson m), ("spec", arr gToJson s), ("c04", arr gToJson c4),
+      ("dft_of_c04", arr gToJson (ws.map fun w => dftSum (fun n => pw w n) c4)),
       ("dft_of_model", arr gToJson dm), ("H", arr respToJson hs)]
   | "expo" =>
     -- complex exponential x_n = u^n (u = e^{jω} = 1/w) through the FIR filter b, n < len
@@ -254,7 +260,39 @@ def handle (entry : String) (j : Json) : Except String Json := do
     let s := xs.map fun x => h * x        -- valid from index len(b)-1 on
     pure <| Json.mkObj [
       ("xs", arr gToJson xs), ("model", arr gToJson m), ("steady", arr gToJson s),
+      -- the run taken from the C04 slice and freq_response of the FIR filter as coded (Props.C12.steady_state_gauss)
+      ("c04", arr gToJson (C04.fspec b [] 1 0 [] [] xs)), ("resp", respToJson (respOfFilter b [1] w)),
       ("H", gToJson h), ("order", natToJson (b.length - 1))]
+  | "pole" =>
+    -- denominator (1 - r z^-1)·q(z^-1), q_0 ≠ 0, probed at (the exact value of) the point the code evaluates at
+    let b ← getList getG (← field j "b")
+    let q ← getList getG (← field j "q")
+    let r ← getG (← field j "r")
+    let ws ← getList getG (← field j "ws")
+    let a := convL [1, -r] q
+    let spec (w : GRat) : Resp GRat :=
+      if (1 - r * w) * evalDirect q w = 0 then .nan else .val (evalDirect b w / ((1 - r * w) * evalDirect q w))
+    pure <| Json.mkObj [
+      ("a", arr gToJson a),
+      ("model", arr respToJson (elementwise (respOfFilter b a) ws)),
+      ("spec", arr respToJson (elementwise spec ws))]
+  | "dftlin" =>
+    -- linearity of dft as coded: dft(c·x + y) against c·dft(x) + dft(y), all frequencies, both modes
+    let xs ← getList getG (← field j "xs")
+    let ys ← getList getG (← field j "ys")
+    let c ← getG (← field j "c")
+    let ws ← getList getG (← field j "ws")
+    let norm ← getBool (← field j "normalize")
+    let kern := fun (w : GRat) n => pw w n
+    let comb := List.zipWith (fun x y => c * x + y)
+    let m := dft kern (comb xs ys) ws norm
+    let s : Option (List GRat) := match dft kern xs ws norm, dft kern ys ws norm with
+      | some X, some Y => some (comb X Y)
+      | _, _ => none
+    let enc : Option (List GRat) → Json
+      | none => Json.mkObj [("err", Json.str "ZeroDivisionError")]
+      | some l => arr gToJson l
+    pure <| Json.mkObj [("block", arr gToJson (comb xs ys)), ("model", enc m), ("spec", enc s)]
   | "hist" =>
     -- a history of list operations and uses over a heap of filters and (nested, shared) banks
     let heap ← getList getObj (← field j "objs")
